@@ -1,3 +1,4 @@
+#[cfg(not(feature = "cosmian_cover_crypt_verif"))]
 use std::{
     borrow::Borrow,
     collections::{hash_map::Entry, HashMap},
@@ -5,6 +6,17 @@ use std::{
     hash::Hash,
     marker::PhantomData,
     mem::swap,
+};
+#[cfg(feature = "cosmian_cover_crypt_verif")]
+use {
+    crate::verif_model::collections::{hash_map::Entry, HashMap},
+    std::{
+        borrow::Borrow,
+        fmt::{self, Debug},
+        hash::Hash,
+        marker::PhantomData,
+        mem::swap,
+    },
 };
 
 use serde::{
